@@ -225,30 +225,29 @@ func checkCustomQuery(w *World, r *Result) {
 			nameVar = objOf(info, id)
 		}
 	}
+	// the guard: the append is reached only when the name is not yet in a set (`_, has := m[name]; has => continue`,
+	// or a map[…]bool read directly), and the name is recorded in that same set on the way
 	dedup := false
+	var setObj types.Object
 	for _, c := range pathConds(fi.Decl, app) {
 		if c.expr == nil || c.truth {
 			continue
 		}
-		if id := identOf(c.expr); id != nil {
-			// has of `_, has := m[varName]`
-			ast.Inspect(fi.Decl.Body, func(y ast.Node) bool {
-				if as, ok := y.(*ast.AssignStmt); ok && len(as.Lhs) == 2 && len(as.Rhs) == 1 {
-					if l := identOf(as.Lhs[1]); l != nil && objOf(info, l) == objOf(info, id) {
-						if ix, ok := as.Rhs[0].(*ast.IndexExpr); ok && identOf(ix.Index) != nil && objOf(info, identOf(ix.Index)) == nameVar {
-							dedup = true
-						}
-					}
-				}
-				return true
-			})
+		if m, k := mapMembership(info, fi.Decl, c.expr); m != nil && k == nameVar && nameVar != nil {
+			dedup, setObj = true, m
 		}
 	}
 	recorded := false
 	ast.Inspect(fi.Decl.Body, func(y ast.Node) bool {
-		if as, ok := y.(*ast.AssignStmt); ok && len(as.Lhs) == 1 {
+		if as, ok := y.(*ast.AssignStmt); ok && len(as.Lhs) == 1 && len(as.Rhs) == 1 {
 			if ix, ok := as.Lhs[0].(*ast.IndexExpr); ok && identOf(ix.Index) != nil && objOf(info, identOf(ix.Index)) == nameVar && nameVar != nil {
-				if _, isMap := info.TypeOf(ix.X).Underlying().(*types.Map); isMap {
+				if mt, isMap := info.TypeOf(ix.X).Underlying().(*types.Map); isMap && identOf(ix.X) != nil && objOf(info, identOf(ix.X)) == setObj {
+					// a boolean set must record `true` (a stored false reads back as "not seen")
+					if b, isBool := mt.Elem().Underlying().(*types.Basic); isBool && b.Kind() == types.Bool {
+						if tv := info.Types[as.Rhs[0]]; tv.Value == nil || !constant.BoolVal(tv.Value) {
+							return true
+						}
+					}
 					recorded = true
 				}
 			}
@@ -275,7 +274,7 @@ func checkCustomQuery(w *World, r *Result) {
 		}
 		ast.Inspect(rs.Body, func(y ast.Node) bool {
 			call, ok := y.(*ast.CallExpr)
-			if !ok || fullName(calleeOf(info, call)) != "fmt.Sprintf" || len(call.Args) != 2 {
+			if !ok || !isSprintf(info, &call) || len(call.Args) != 2 {
 				return true
 			}
 			tv := info.Types[call.Args[0]]
@@ -314,8 +313,8 @@ func checkCustomQuery(w *World, r *Result) {
 		}
 		writes := map[string]bool{}
 		for _, st := range rs.Body.List {
-			if as, ok := st.(*ast.AssignStmt); ok && as.Tok == token.ADD_ASSIGN {
-				writes[es(as.Lhs[0])] = true
+			if t := textAccumTarget(ginfo, st); t != "" {
+				writes[t] = true
 			}
 		}
 		if len(writes) >= 2 && len(pathCondsNoLoop(gq, rs.Body.List[0])) == lenOuterConds(gq, rs) {
@@ -442,8 +441,8 @@ func checkRegexFacts(w *World, r *Result) {
 	viaTable := false
 	ast.Inspect(gc.Decl.Body, func(x ast.Node) bool {
 		if call, ok := x.(*ast.CallExpr); ok && fullName(calleeOf(ginfo, call)) == "(*regexp.Regexp).ReplaceAllStringFunc" {
-			if fl2, ok := call.Args[1].(*ast.FuncLit); ok {
-				for _, f := range callsIn(ginfo, fl2) {
+			if body, binfo, _ := callbackOf(w, gc, call.Args[1]); body != nil {
+				for _, f := range callsIn(binfo, body) {
 					if strings.HasSuffix(f, "generator.SQLTableName") {
 						viaTable = true
 					}
@@ -614,4 +613,70 @@ func checkEnumsLast(w *World, r *Result) {
 	if n < 2 {
 		Undecided("PTH-C16o: fewer ReplaceEnums call sites than confirmed by hand (%d)", n)
 	}
+}
+
+// mapMembershipExpr recognises a test "key k is in map m": the ok identifier of `_, ok := m[k]` (or `v, ok := m[k]`),
+// a direct read `m[k]` of a map with boolean elements, or an identifier bound once to such a read. It returns the
+// object of m and the key expression.
+func mapMembershipExpr(info *types.Info, fd *ast.FuncDecl, e ast.Expr) (m types.Object, k ast.Expr) {
+	e = ast.Unparen(e)
+	index := func(x ast.Expr) (types.Object, ast.Expr, *types.Map) {
+		ix, ok := ast.Unparen(x).(*ast.IndexExpr)
+		if !ok || identOf(ix.X) == nil {
+			return nil, nil, nil
+		}
+		mt, ok := info.TypeOf(ix.X).Underlying().(*types.Map)
+		if !ok {
+			return nil, nil, nil
+		}
+		return objOf(info, identOf(ix.X)), ix.Index, mt
+	}
+	isBool := func(mt *types.Map) bool {
+		b, ok := mt.Elem().Underlying().(*types.Basic)
+		return ok && b.Kind() == types.Bool
+	}
+	if mo, ko, mt := index(e); mo != nil {
+		if isBool(mt) {
+			return mo, ko
+		}
+		return nil, nil
+	}
+	id := identOf(e)
+	if id == nil {
+		return nil, nil
+	}
+	n := 0
+	ast.Inspect(fd.Body, func(y ast.Node) bool {
+		as, ok := y.(*ast.AssignStmt)
+		if !ok || len(as.Rhs) != 1 {
+			return true
+		}
+		for i, lhs := range as.Lhs {
+			l := identOf(lhs)
+			if l == nil || objOf(info, l) != objOf(info, id) {
+				continue
+			}
+			n++
+			mo, ko, mt := index(as.Rhs[0])
+			if mo == nil {
+				continue
+			}
+			if (len(as.Lhs) == 2 && i == 1) || (len(as.Lhs) == 1 && isBool(mt)) {
+				m, k = mo, ko
+			}
+		}
+		return true
+	})
+	if n != 1 {
+		return nil, nil
+	}
+	return m, k
+}
+
+func mapMembership(info *types.Info, fd *ast.FuncDecl, e ast.Expr) (m, k types.Object) {
+	mo, ke := mapMembershipExpr(info, fd, e)
+	if mo == nil || identOf(ke) == nil {
+		return nil, nil
+	}
+	return mo, objOf(info, identOf(ke))
 }
